@@ -44,8 +44,8 @@ trigger, before the trial, because the generator provably lacked that input).  E
 input class, order or history the generator did not produce; the exception (C04d) was an oracle weakness: finite-difference
 errors were scaled by the analytic outputs only, so a derivative that was wrongly zero where the value is zero was dropped as
 unresolved.  No miss was a tolerance, and every strengthened check stayed silent on the unchanged tree over VERIF_SEED 0-4.
-Miss rate by round: a 9/20, b 7/20, c 11/20, d 3/20, e 11/20, f 7/10 — round d (same axes as before: options, branches) hit generators
-already widened by the earlier rounds, rounds e and f opened new axes (kind of system, form of the data, user workflows) and found gaps again: the honest reading
+Miss rate by round: a 9/20, b 7/20, c 11/20, d 3/20, e 11/20, f 9/20 (7 of the first ten, 2 of the second ten) — round d (same axes as before: options, branches) hit generators
+already widened by the earlier rounds, rounds e and f opened new axes (kind of system, form of the data, user workflows, equivalent entry points) and found gaps again: the honest reading
 is that each new axis of variation costs a round, not that the generators are complete.  After strengthening, every kept change is caught by the quick tier of its property's check;
 several are also caught by a neighbouring property's check (listed).  What this does *not* show: the seeds are the
 changes these agents thought of; a change whose trigger lies outside every generator's input classes is still missed.
